@@ -1,8 +1,6 @@
-from math import atan, pi, sin, sqrt
+from math import cos, sin, sqrt
 
 import numpy as np
-
-from ghedesigner.constants import PI_OVER_2, TWO_PI
 
 
 class Shapes:
@@ -137,20 +135,9 @@ class Shapes:
 def sort_intersections(r_a, rotate):
     if len(r_a) == 0:
         return r_a
-    vals = [0] * len(r_a)
-    for i, inter in enumerate(r_a):
-        phi = PI_OVER_2 if inter[0] == 0 else atan(inter[1] / inter[0])
-        dist_inter = sqrt(inter[1] ** 2 + inter[0] ** 2)
-        ref_ang = PI_OVER_2 - phi
-        # sign = 1
-        if phi > PI_OVER_2:
-            if phi > pi:  # noqa: SIM108
-                ref_ang = TWO_PI - phi if phi > 3 * PI_OVER_2 else 3.0 * PI_OVER_2 - phi
-            else:
-                ref_ang = pi - phi
-        # if phi > pi/2 + rotate and phi < 3*pi/2 + rotate:
-        # sign = -1
-        vals[i] = dist_inter * sin(ref_ang + rotate)
+    # order along the row direction (cos(rotate), sin(rotate)); the projection is well defined for every point,
+    # including those a rounding error puts at a tiny negative abscissa
+    vals = [inter[0] * cos(rotate) + inter[1] * sin(rotate) for inter in r_a]
     zipped = sorted(zip(vals, r_a))
     r_a = [row for _, row in zipped]
     return r_a
